@@ -199,8 +199,9 @@ def expected(runs):
 
 
 def text_proj(desc, names):
+    """what the text format shows of a problem; build names as a set (canonical: sorted tuple)"""
     f, off, line, col, ef, eoff, el, ec, cat, msg = desc
-    return (f, line, col, msg, ",".join(names), cat)
+    return (f, line, col, msg, tuple(sorted(set(names))), cat)
 
 
 def json_proj(desc):
@@ -217,8 +218,9 @@ def parse_text(s):
         m = TEXT_RE.match(line)
         if not m:
             raise vlib.HarnessError("cannot parse text output line %r" % line)
+        # "[a,b]" = strings.Join of the names; no bracket = the single empty name
         out.append((m.group("file"), int(m.group("line")), int(m.group("col")), m.group("msg"),
-                    m.group("b") or "", m.group("cat")))
+                    tuple(sorted((m.group("b") or "").split(","))), m.group("cat")))
     return out
 
 
@@ -530,73 +532,99 @@ def sc_run(sc, args, cwd, stdin, cache):
     return p.returncode, p.stdout, p.stderr.decode(errors="replace")
 
 
-def check_matrix(ctx, gob, sc, rng, nmods):
-    cache = ctx.path("sccache", "x")
-    cache = os.path.dirname(cache)
+def matrix_module(ctx, gob, sc, cache, d, cfgs, r):
+    """All observations for one generated module directory `d` with configurations `cfgs`."""
+    from concurrent.futures import ThreadPoolExecutor
     fails, diffs = [], []
     stats = collections.Counter()
-    samples = []
-    for mi in range(nmods):
+
+    # one -f binary run per configuration (a one-line matrix gives the run its name)
+    def binrun(c):
+        rc, so, se = sc_run(sc, ["-matrix", "-f", "binary", "./..."], d, (cfg_line(c) + "\n").encode(), cache)
+        if rc != 0 or se.strip():
+            raise vlib.HarnessError("staticcheck -matrix -f binary failed in %s for %s: rc=%d %s" % (d, c, rc, se[-800:]))
+        p = os.path.join(d, "run_%s.bin" % c[0])
+        with open(p, "wb") as f:
+            f.write(so)
+        return c[0], p
+
+    with ThreadPoolExecutor(max_workers=4) as ex:
+        bins = dict(ex.map(binrun, cfgs))
+    rc, so, se = vlib.run([gob, "dump"] + [bins[c[0]] for c in cfgs], env=vlib.go_env())
+    if rc != 0:
+        raise vlib.HarnessError("c12gob dump failed: " + se[-800:])
+    runs = []
+    for line in so.splitlines():
+        rs = json.loads(line)["runs"]
+        if len(rs) != 1:
+            raise vlib.HarnessError("expected one run per -f binary file, got %d" % len(rs))
+        runs += rs
+    if any(dg["cat"] == "compile" for rr in runs for dg in rr["diags"]):
+        raise vlib.HarnessError("generated module %s does not compile under some configuration" % d)
+    exp = expected(runs)
+    exp_text = ms(text_proj(k, v) for k, v in exp.items())
+    tags = classify(runs)
+    for t in tags:
+        stats["tag:" + t] += 1
+    stats["modules"] += 1
+    stats["configs"] += len(cfgs)
+    stats["problems_kept"] += len(exp)
+    lines = [cfg_line(c) for c in cfgs]
+    obsv = [
+        ("-merge of per-configuration -f binary runs", ["-merge"] + [bins[c[0]] for c in cfgs], None),
+        ("-merge, files permuted", ["-merge"] + [bins[c[0]] for c in r.shuffle(cfgs)], None),
+        ("-matrix", ["-matrix", "./..."], ("\n".join(lines) + "\n").encode()),
+        ("-matrix, lines permuted", ["-matrix", "./..."], ("\n".join(r.shuffle(lines)) + "\n").encode()),
+        ("-matrix, a configuration repeated", ["-matrix", "./..."], ("\n".join(lines + [lines[0]]) + "\n").encode()),
+        ("-matrix, blank lines and no final newline", ["-matrix", "./..."], ("\n" + "\n\n".join(lines)).encode()),
+    ]
+
+    def observe(o):
+        what, args, stdin = o
+        rc, so, se = sc_run(sc, args, d, stdin, cache)
+        if rc not in (0, 1) or se.strip():
+            raise vlib.HarnessError("%s failed in %s: rc=%d %s" % (what, d, rc, se[-800:]))
+        return ms(parse_text(so.decode()))
+
+    with ThreadPoolExecutor(max_workers=3) as ex:
+        gots = list(ex.map(observe, obsv))
+    for (what, args, stdin), got in zip(obsv, gots):
+        stats["invocations"] += 1
+        if got != exp_text:
+            fails.append({"module_dir_snapshot": snapshot(d), "configs": [list(c) for c in cfgs], "what": what,
+                          "args": [a if not a.startswith(d) else os.path.basename(a) for a in args],
+                          "stdin": stdin.decode() if stdin is not None else None,
+                          "expected_text": show_ms(exp_text), "got_text": show_ms(got),
+                          "runs_decoded_from_f_binary": runs})
+    if ctx.c12_model:
+        mo = dec_model(vlib.run_model(ctx, "C12", [enc_runs(norm_runs(runs))])[0])
+        mo_text = ms(text_proj(k, v) for k, v in mo)
+        if mo_text != exp_text:
+            diffs.append({"module": d, "model_text": show_ms(mo_text), "expected_text": show_ms(exp_text)})
+    sample = {"configs": lines, "kept": show_ms(exp_text)[:6], "situations": sorted(tags)}
+    return fails, diffs, stats, sample
+
+
+def check_matrix(ctx, gob, sc, rng, nmods):
+    from concurrent.futures import ThreadPoolExecutor
+    cache = os.path.dirname(ctx.path("sccache", "x"))
+
+    def one(mi):
         r = rng.fork("mod%d" % mi)
         d = os.path.join(ctx.scratch, "mods", "m%d" % mi)
         cfgs = gen_module(r, d, mi)
-        # one -f binary run per configuration (a one-line matrix gives the run its name)
-        bins = {}
-        for c in cfgs:
-            rc, so, se = sc_run(sc, ["-matrix", "-f", "binary", "./..."], d, (cfg_line(c) + "\n").encode(), cache)
-            if rc != 0 or se.strip():
-                raise vlib.HarnessError("staticcheck -matrix -f binary failed in %s for %s: rc=%d %s" % (d, c, rc, se[-800:]))
-            p = os.path.join(d, "run_%s.bin" % c[0])
-            with open(p, "wb") as f:
-                f.write(so)
-            bins[c[0]] = p
-        rc, so, se = vlib.run([gob, "dump"] + [bins[c[0]] for c in cfgs], env=vlib.go_env())
-        if rc != 0:
-            raise vlib.HarnessError("c12gob dump failed: " + se[-800:])
-        runs = []
-        for line in so.splitlines():
-            rs = json.loads(line)["runs"]
-            if len(rs) != 1:
-                raise vlib.HarnessError("expected one run per -f binary file, got %d" % len(rs))
-            runs += rs
-        if any(dg["cat"] == "compile" for rr in runs for dg in rr["diags"]):
-            raise vlib.HarnessError("generated module %s does not compile under some configuration" % d)
-        exp = expected(runs)
-        exp_text = ms(text_proj(k, v) for k, v in exp.items())
-        tags = classify(runs)
-        for t in tags:
-            stats["tag:" + t] += 1
-        stats["modules"] += 1
-        stats["configs"] += len(cfgs)
-        stats["problems_kept"] += len(exp)
+        return matrix_module(ctx, gob, sc, cache, d, cfgs, r)
 
-        def observe(what, args, stdin):
-            rc, so, se = sc_run(sc, args, d, stdin, cache)
-            stats["invocations"] += 1
-            if rc not in (0, 1) or se.strip():
-                raise vlib.HarnessError("%s failed in %s: rc=%d %s" % (what, d, rc, se[-800:]))
-            got = ms(parse_text(so.decode()))
-            if got != exp_text:
-                fails.append({"module_dir_snapshot": snapshot(d), "configs": [cfg_line(c) for c in cfgs], "what": what,
-                              "args": args, "stdin": stdin.decode() if stdin is not None else None,
-                              "expected_text": show_ms(exp_text), "got_text": show_ms(got),
-                              "runs_decoded_from_f_binary": runs})
-            return got
-
-        lines = [cfg_line(c) for c in cfgs]
-        observe("-merge of per-configuration -f binary runs", ["-merge"] + [bins[c[0]] for c in cfgs], None)
-        observe("-merge, files permuted", ["-merge"] + [bins[c[0]] for c in r.shuffle(cfgs)], None)
-        observe("-matrix", ["-matrix", "./..."], ("\n".join(lines) + "\n").encode())
-        observe("-matrix, lines permuted", ["-matrix", "./..."], ("\n".join(r.shuffle(lines)) + "\n").encode())
-        observe("-matrix, a configuration repeated", ["-matrix", "./..."], ("\n".join(lines + [lines[0]]) + "\n").encode())
-        observe("-matrix, blank lines and no final newline", ["-matrix", "./..."], ("\n" + "\n\n".join(lines)).encode())
-        if ctx.c12_model:
-            mo = dec_model(vlib.run_model(ctx, "C12", [enc_runs(norm_runs(runs))])[0])
-            mo_text = ms(text_proj(k, v) for k, v in mo)
-            if mo_text != exp_text:
-                diffs.append({"module": d, "model_text": show_ms(mo_text), "expected_text": show_ms(exp_text)})
+    with ThreadPoolExecutor(max_workers=max(2, vlib.NCPU // 3)) as ex:
+        res = list(ex.map(one, range(nmods)))
+    fails, diffs, samples = [], [], []
+    stats = collections.Counter()
+    for f, dd, st, sm in res:
+        fails += f
+        diffs += dd
+        stats.update(st)
         if len(samples) < 2:
-            samples.append({"configs": lines, "kept": show_ms(exp_text)[:6], "situations": sorted(tags)})
+            samples.append(sm)
     return fails, diffs, stats, samples
 
 
@@ -617,8 +645,26 @@ def replay(ctx, gob, sc):
             cases.append(flat(f["job"]["files"]))
         if f.get("minimised"):
             cases.append(f["minimised"]["runs"])
+    mfails = []
+    nm = 0
+    for i, f in enumerate(obj.get("failures", [])):
+        if "module_dir_snapshot" in f:
+            d = os.path.join(ctx.scratch, "replaymods", "m%d" % i)
+            os.makedirs(d, exist_ok=True)
+            for fn, txt in f["module_dir_snapshot"].items():
+                with open(os.path.join(d, fn), "w") as fh:
+                    fh.write(txt)
+            cfgs = [(c[0], c[1]) for c in f["configs"]]
+            mf, _, _, _ = matrix_module(ctx, gob, sc, os.path.dirname(ctx.path("sccache", "x")), d, cfgs, vlib.SplitMix(ctx.seed))
+            mfails += mf
+            nm += 1
+    if mfails:
+        ctx.violation("replayed_matrix.json", {"failures": mfails[:5]}, text="C12 replay: %d -matrix observations still fail" % len(mfails))
     if not cases:
-        raise vlib.HarnessError("replay file has no crafted-run case (matrix replays: follow how_to_replay in the file)")
+        if not nm:
+            raise vlib.HarnessError("replay file contains no case")
+        ctx.coverage.update({"evaluations": 6 * nm, "replayed_modules": nm})
+        return vlib.finish(ctx, "proof")
     fails, diffs, stats = check_crafted(ctx, gob, sc, cases, vlib.SplitMix(ctx.seed), "replay")
     if fails:
         ctx.violation("replayed.json", {"failures": fails[:5]}, text="C12 replay: %d of %d cases still fail" % (len(fails), len(cases)))
@@ -647,7 +693,7 @@ def run(ctx):
         return replay(ctx, gob, sc)
 
     rng = vlib.SplitMix(ctx.seed).fork("C12")
-    ncases, ngroups, nmods = (80, 16, 3) if ctx.quick else (2000, 16, 40)
+    ncases, ngroups, nmods = (60, 16, 3) if ctx.quick else (2000, 16, 40)
     corpus = [norm_runs(c) for c in CORPUS]
     cdir = os.path.join(vlib.VERIF, "corpus", "C12")
     if os.path.isdir(cdir):
